@@ -29,6 +29,7 @@ class IOLog:
         self.count = 0              # mutating ops seen since arming
         self.injected = None        # op that was failed
         self.fail_pending = None    # path whose next raw write reports the error
+        self.reading_raw = None     # raw file of the read being reported
         self.point_hook = None      # scheduler hook: called before each op
         self.read_hook = None       # called with (path, pos, n) on raw reads
         self.reads = 0
@@ -130,6 +131,7 @@ class RecFileIOReads(RecFileIO):
     def readinto(self, b):
         LOG.reads += 1
         if LOG.read_hook is not None:
+            LOG.reading_raw = self      # which handle (for the hook)
             LOG.read_hook(self._rpath, _os.lseek(self.fileno(), 0, 1), len(b))
         return super().readinto(b)
 
@@ -272,7 +274,11 @@ def install():
             m.os = OS
         m.open = rec_open
     fs = env.mod('ZODB.FileStorage.FileStorage')
-    fs.fsync = OS.fsync
+    # the module binds os.fsync to a name of its own at import time; if that
+    # name is anything else (a wrapper defined in the module), leave it: it
+    # reaches the proxy through the module's `os`
+    if fs.fsync is _os.fsync:
+        fs.fsync = OS.fsync
     blob = env.mod('ZODB.blob')
     # blob.py binds these at import time to the real functions
     if blob.remove_committed is _os.remove:
